@@ -60,22 +60,41 @@ Definition per_id_same (l1 l2 : list change) : Prop := forall i, at_id i l1 = at
 Definition per_id_sameb (l1 l2 : list change) : bool :=
   forallb (fun i => list_eqb change_eqb (at_id i l1) (at_id i l2)) (map cid (l1 ++ l2)).
 
-(* What the store can produce (pkg/resource/collection.go): Update commits under the lock
-   (c.commits++) and publishes AFTER releasing it; Delete commits and publishes while holding it.
-   So with [hist] the publications in commit order (commit numbers 1, 2, ...), an arrival order
-   [arr] at a listener registered when the counter stood at [thr] is producible iff
-     - every publication numbered above thr arrives, exactly once; of those numbered up to thr
-       only Updates may still arrive (a Delete numbered <= thr published before the listener
-       was registered under the read lock);
-     - a Delete's publication arrives before every publication with a higher number (those
-       commit after the Delete released the lock);
-     - nothing else: two Updates by different goroutines arrive in either order.
-   Writes to one id that do not overlap in time arrive in commit order (a write returns after it
-   has published); [store_order] below is the decidable form of the second clause, the
-   per-id clause is [per_id_same]. *)
-Definition is_remove (p : published) : bool := ckind (pchange p) =? K_REMOVE.
-Fixpoint store_order (arr : list published) : bool :=
+(* What the store can produce.
+
+   Since /repo 3d54e87 ("change events leave in the order of their commits"): every commit is
+   numbered under the write lock and a ticket turnstile (pkg/resource/turnstile.go:
+   publishing.enter(commit) before bus.Send, leave after it; Delete enters and leaves around its Send
+   under c.mu) lets the publications leave in commit order.  So with [hist] the publications in
+   commit order, the arrival order at a listener registered when the counter stood at [thr] is
+       a suffix of hist, in commit order ([increasing]),
+   which contains every publication numbered above thr, and may start with publications numbered
+   up to thr (commits whose publication was still pending when the subscription opened: they
+   arrive first, before anything newer).  Under such an arrival order changesAfter only ever drops
+   a prefix (ChangesAfterProofs.in_order_drops_a_prefix), and the per-id clause [per_id_same] holds
+   for ANY writers, overlapping or not.
+
+   Before that commit (kept as [store_order_v1]): Update committed under the lock and published
+   AFTER releasing it, Delete committed and published while holding it; an arrival order was
+   producible iff every publication numbered above thr arrived exactly once, of those numbered up
+   to thr only Updates could still arrive, a Delete's publication arrived before every
+   higher-numbered one, and nothing else -- two Updates by different goroutines arrived in either
+   order, and only writes to one id that did not overlap in time arrived in commit order.
+   The theorems of this area only need [per_id_same]; they hold for every order of the old, larger
+   class, which is what the single-action stage KLossy still drives (the stage's own contract). *)
+Fixpoint increasing (arr : list published) : bool :=
   match arr with
   | [] => true
-  | p :: r => forallb (fun q => negb (is_remove q && (pcommit q <? pcommit p))) r && store_order r
+  | p :: r => match r with
+              | [] => true
+              | q :: _ => (pcommit p <? pcommit q) && increasing r
+              end
+  end.
+Definition store_order (arr : list published) : bool := increasing arr.
+
+Definition is_remove (p : published) : bool := ckind (pchange p) =? K_REMOVE.
+Fixpoint store_order_v1 (arr : list published) : bool :=
+  match arr with
+  | [] => true
+  | p :: r => forallb (fun q => negb (is_remove q && (pcommit q <? pcommit p))) r && store_order_v1 r
   end.
